@@ -142,6 +142,15 @@ def read(obj, case):
     tab = obj.data_matter(quantity=False)
     rows = {k: {c: float(getattr(r, c)) for c in r.keys()} for k, r in tab.items() if k not in ("avg", "sum")}
     out["rows"] = rows
+    # the same table asked for as quantities: each entry is the same number once brought to the table's units
+    tq = obj.data_matter()
+    unit_of = {"n": "cm-3", "rho": "g/cm3", "M": "g"}
+    out["qrows"] = {}
+    for k, r in tq.items():
+        if k in ("avg", "sum"):
+            continue
+        out["qrows"][k] = {c: (float(getattr(r, c).value(unit_of[c])) if hasattr(getattr(r, c), "value") and c in unit_of
+                               else float(getattr(r, c))) for c in r.keys()}
     out["sum"] = {c: float(getattr(tab["sum"], c)) for c in tab["sum"].keys()} if "sum" in tab.keys() else None
     return out
 
@@ -169,6 +178,12 @@ def _desc(case):
 
 def _check(case, v):
     text = _desc(case)
+    # a formula the solver refuses, caught by the caller, happened earlier in this process
+    try:
+        from scinumtools.materials import Substance
+        Substance("H2Xx")
+    except Exception:
+        pass
     try:
         obj, amounts, masses = build(case, 1)
         got = read(obj, case)
@@ -193,6 +208,11 @@ def _check(case, v):
         if got["mass"] is None or not close(got["mass"], rho * V, 1e-9):
             return v.fail("mass", f"{text}: mass {got['mass']!r} g, expected rho*V = {rho * V!r}")
     rows = got["rows"]
+    for k in rows:
+        for c in rows[k]:
+            if k not in got["qrows"] or c not in got["qrows"][k] or not close(rows[k][c], got["qrows"][k][c], 1e-9):
+                return v.fail("quantity-table", f"{text}: {c}[{k}] = {rows[k][c]!r} in the number table but "
+                                                f"{got['qrows'].get(k, {}).get(c)!r} (same units) in the quantity table")
     srho = sum(r["rho"] for r in rows.values())
     if not close(srho, rho, 1e-9):
         return v.fail("sum-rho", f"{text}: component mass densities add up to {srho!r}, rho = {rho!r}")
